@@ -881,7 +881,8 @@ func (x *gen) cliOp() {
 				var words []string
 				if x.g.chance(90) {
 					for _, w := range x.wordList(false) {
-						if !strings.ContainsAny(w, " \t") && w != "" {
+						// a word file is split at Unicode white space: keep words that survive that intact
+						if f := strings.Fields(w); len(f) == 1 && f[0] == w {
 							words = append(words, w)
 						}
 					}
